@@ -94,7 +94,11 @@ def timed(f):
     old = signal.signal(signal.SIGALRM, _alarm)
     signal.setitimer(signal.ITIMER_REAL, 1.0)
     try:
-        return f()
+        r = f()
+        # the alarm may fire inside vlib.guarded, which reports it as an error of the call
+        if isinstance(r, tuple) and len(r) == 2 and r[0] == "err" and str(r[1]).endswith("_Timeout"):
+            return ("err", "Other")
+        return r
     except _Timeout:
         return ("err", "Other")
     finally:
